@@ -5,7 +5,9 @@ package drv
 
 import (
 	"fmt"
+	"os"
 	"runtime"
+	"runtime/debug"
 	"sort"
 	"unsafe"
 
@@ -150,6 +152,9 @@ func try(f func()) (panicked bool, val any) {
 			}
 			panicked = true
 			val = r
+			if os.Getenv("VERIF_STACK") != "" {
+				val = fmt.Sprintf("%v\n%s", r, debug.Stack())
+			}
 		}
 	}()
 	f()
@@ -194,7 +199,7 @@ func (x *World) mapper(path model.Path, tuple []ct.Comp) api.Mapper {
 	switch path {
 	case model.PathUnsafe:
 		m = api.NewUnsafeMapper(x.Env, tuple)
-	case model.PathMapN:
+	case model.PathMapN, model.PathExchange:
 		m = api.TypedMapper(x.Env, tuple)
 	case model.PathMap:
 		if len(tuple) != 1 {
@@ -334,6 +339,10 @@ func (x *World) Exec(op model.Op) *Violation {
 		if !panicked {
 			return x.viol("lock", "%v on a locked world did not panic", op)
 		}
+		return nil
+	}
+	if panicked && (op.K == model.OpShrink || op.K == model.OpShrinkLimit) && x.M.Locked() {
+		// Shrink on a locked world may either be rejected (panic without effect) or succeed invisibly
 		return nil
 	}
 	if panicked {
@@ -623,8 +632,11 @@ func (x *World) run(op *model.Op, res *model.Result) *Violation {
 		w.Reset()
 		if !res.Panics {
 			for i := range x.filters {
-				// filter objects survive a Reset (they can be registered again)
-				_ = i
+				// filter objects survive a Reset (they can be registered again), except those
+				// with a fixed pre-Reset target handle (handles restart after Reset)
+				if !x.M.Created[i] {
+					x.filters[i] = nil
+				}
 			}
 			for i := range x.queries {
 				x.queries[i] = qslot{}
